@@ -83,6 +83,9 @@ BY_CLASS = {
                   'description[1.5]', 'orders[amount]', 'amount.real', '1 if amount[0] else 2', '-description',
                   'not description + 1', 'nosuchvar', '[r.nosuch for r in orders]', 'orders[0].item[9]', 'description[99]'],
     'ZeroDivision-like': ['amount / "2" > 1', 'sum(amount) > 1', 'round(description) > 1'],
+    # expressions that exhaust the interpreter's recursion limit when evaluated (a long operator chain: the loader accepts them)
+    'too-deep': ['amount == ' + ' + '.join(['0.20'] * 700), ' or '.join(['contains("ZZ%d")' % k_ for k_ in range(400)]) + ' or amount == ' + ' + '.join(['1'] * 600),
+                 'amount > ' + ' - '.join(['1000'] * 650)],
     # syntax outside the language: rejected when the file is loaded wherever expressions are checked at load; a {tag} expression is
     # only checked when it is evaluated, where it must be one more expression that cannot be evaluated (one entry per node kind,
     # operators included - operator nodes carry no position)
